@@ -9,8 +9,9 @@ TRUSTED = ("pyvc VC generator (home-made; cross-checked, no trusted kernel), SMT
 PROPS = {
     "C02": dict(level="other",
                 claim="the tokenisers every rule goes through (_next_quote, splitquote) are proved lossless and quote-exact for all "
-                      "inputs; Program.match is proved to account for every item on its normal exit (fallback exit: known finding); "
-                      "per-rule match methods are not under contract",
+                      "inputs; Program.match is proved to account for every item of the input on every normal exit (after the repair of its fallback); SequenceBase.match "
+                      "is proved to build one node per entry in order; the lexical content of the printed text is compared with the source on a program "
+                      "corpus (bounded); other per-rule match methods are not under contract",
                 trusted=TRUSTED,
                 explanation="[P] tokenisers, label/name extraction, Program.match item accounting, SequenceBase.match; [B] lexical content of printed "
                             "text vs source (bounded_tokens.py), layout independence of the reader items (bounded_layout.py)",
@@ -20,7 +21,8 @@ PROPS = {
     "C06": dict(level="other",
                 claim="exception-type contracts: Program.__new__ lets only FortranSyntaxError out (given the stated contract of the parse "
                       "below it), FortranSyntaxError construction cannot raise IndexError under the line bookkeeping invariant, reader "
-                      "diagnostics must not end the process (known finding: reader.error exits)",
+                      "diagnostics must not end the process (known finding: reader.error exits), FortranReaderBase.next lets only StopIteration out; "
+                      "a deterministic token-mutation corpus is parsed and every escape other than FortranSyntaxError reported (bounded)",
                 trusted=TRUSTED + "; [A] the parse below Program raises only fparser exceptions",
                 explanation="[P] F1, U1, R17, R10 (next); [B] token-mutation corpus (bounded_garbage.py); whole-parser escape freedom only for functions under contract",
                 enum=[("enum_frame.py", ["frame.exits", "frame.decode"]), "bounded_garbage.py"],
@@ -31,7 +33,8 @@ PROPS = {
     "C09": dict(level="other",
                 claim="on every normal and exceptional exit of the only two functions that open scopes (BlockBase.match, "
                       "Main_Program0.match) the scope stack is as at entry and no symbol table of the failed parse remains; symbol-table "
-                      "operations proved against the ghost stack; one clause (pre-existing same-named table is lost) is a known finding",
+                      "operations proved against the ghost stack; one clause (pre-existing same-named table is lost) is a known finding; "
+                      "failing parses of one- and multi-unit sources enumerated against the table registry (tables of earlier units remain: known finding)",
                 trusted=TRUSTED,
                 explanation="[P] T1-T6, U8a, F3 over ghost scope stack tied to _current_scope/_parent by REP; rule-call protocol G3 assumed for callees",
                 enum=["enum_registries.py --only C09", ("enum_frame.py", ["frame.inventory", "frame.scope_calls"]),
@@ -41,9 +44,10 @@ PROPS = {
     "C08": dict(level="other", enum=["enum_block_table.py", "bounded_trees.py --only C08"],
                 claim="BlockBase.match proved to return a block with an end class only if its END was found with agreeing names and labels "
                       "(when the caller asks for the check); call-site table of the 35 block rules enumerated against the constructs named in the "
-                      "property (rules without a name check: known findings); Program.match accepts only exhausted input on its normal exit",
+                      "property (rules without a name check: known findings); Program.match accepts only exhausted input; "
+                      "structural deletions / insertions of construct lines and single-parenthesis edits over the statement corpus must be rejected (bounded)",
                 trusted=TRUSTED,
-                explanation="[P] U8c/d/e, F2; [E] F12 table; rejection of unbalanced parentheses is emergent and not decided",
+                explanation="[P] U8c/d/e, U8b restore, F2; [E] F12 table; [B] ill-nested and unbalanced-parenthesis variants (bounded_trees.py)",
                 witnesses=["c08_interface_end_name_mismatch", "c08_subroutine_end_name_mismatch", "c08_labelled_do_end_name_mismatch",
                            "c08_stray_end_do_inside_labelled_do", "c08_labelled_do_without_terminator", "c08_generic_spec_with_surplus_parenthesis",
                            "c08_procedure_declaration_drops_text"]),
@@ -61,21 +65,23 @@ PROPS = {
                 explanation="[P] T1-T8 (incl. SymbolTable.lookup, add_use_symbols), U8a, F9 Intrinsic_Function_Reference.match; [E] scoping class set, scope call sites; [B] generated scope trees (bounded_scopes.py)"),
     "C17": dict(level="other", enum=["enum_registries.py --only C17"],
                 claim="registry inclusion f2003 within f2008 enumerated on the real ParserFactory output; 2008-only rules absent from the 2003 "
-                      "registry; program-level refinement compared on a statement corpus (differences: known findings)",
+                      "registry; the three Fortran 2008 rules that delegate to their 2003 "
+                      "rule are proved to return the 2003 result whenever there is one; replaced constituents keep the 2003 alternatives (enumerated); "
+                      "program-level refinement compared on a statement corpus (differences: known findings)",
                 trusted=TRUSTED,
-                explanation="[E] P2; [B] P3 at program level on a fixed corpus",
+                explanation="[P] F17 (Loop_Control, Format_Item, Proc_Decl of Fortran2008); [E] P2, replaced constituents; [B] P3 at program level on a fixed corpus",
                 witnesses=["c17_open_without_unit", "c17_procedure_stmt_text_differs"]),
     "C10": dict(level="other", enum=["bounded_trees.py --only C10"],
                 claim="node construction and navigation contracts: Base.__new__ statement branch stores the consumed item on the node, the parse cache "
                       "returns the identical object per (item, class), get_root returns an ancestor without parent, BlockBase.match accounts for every "
                       "consumed item in content order",
                 trusted=TRUSTED,
-                explanation="[P] U3b, R20, U5 get_root, U8f; _set_parent / walk not yet under contract (bounded tree catalogue in C18)"),
+                explanation="[P] U3b, R20, U5 get_root/children, _set_parent, Base.__init__, BlockBase.init, U8f, SequenceBase.match (no node twice); [B] well-formedness of catalogue trees; walk not under contract"),
     "C11": dict(level="other", enum=["bounded_layout.py --only C11"],
                 claim="comment handling contracts: Comment.__new__ consumes exactly one comment item or restores the reader, Comment/Directive.init keep "
                       "the comment text and item, BlockBase.match restores every consumed item on failure and keeps content in item order",
                 trusted=TRUSTED,
-                explanation="[P] F4, U8b/f; reader-side comment creation (handle_inline_comment, continuation loop) bounded / not yet under contract"),
+                explanation="[P] F4, F3 (add_comments_includes_directives, match_comment_or_include), U8b/f, handle_inline_comment; [B] comment placements incl. comments inside continued literals"),
     "C12": dict(level="other", enum=["bounded_layout.py --only C12"],
                 claim="put-back half proved: physical-line stack (put/get_single_line, get_next_line keep the count invariant), item queue (put_item "
                       "prepends to the innermost reader), rule calls that report no match leave the item stream unchanged (Base.__new__, Comment, "
@@ -87,7 +93,7 @@ PROPS = {
                 claim="a '#' line is recognised exactly when its first non-blank character is '#' (not pyf); the reader's directive branch returns "
                       "one CppDirective item whose span is the physical lines taken, without exception at end of input",
                 trusted=TRUSTED,
-                explanation="[P] R13, R14; Cpp_* round trip and match_cpp_directive not yet under contract",
+                explanation="[P] R13, R14, F3 (the collector takes every leading comment/include/directive in any order); [B] directive insertion at every boundary, also among retained comments; Cpp_* rules not under contract",
                 witnesses=["c14_directive_backslash_at_eof", "c14_directive_with_semicolon", "c14_directive_before_anonymous_main_program"]),
     "C18": dict(level="other", enum=["bounded_trees.py --only C18"],
                 claim="deep-copy protocol: Base.__getnewargs__ returns (string, None, True) and every class with its own __new__ (Base, Comment, "
@@ -99,19 +105,21 @@ PROPS = {
                 claim="mechanisms that keep parsing effort polynomial: the per-item parse cache evaluates a string rule at most once per (item, class) "
                       "(ghost evaluation counter), the labelled-DO early abort restores the reader and returns at once",
                 trusted=TRUSTED,
-                explanation="[P] R20 with ghost counter, U8g as part of U8b; global bound not decided"),
+                explanation="[P] R20 with ghost counter, U8g as part of U8b; [B] constructor-call counts for 40 size families (three are exponential: known findings); global bound not decided"),
     "C03": dict(level="other", enum=["bounded_expr.py"],
                 claim="the operator table of the 12 expression levels (operand classes, operator pattern, split direction, chaining order) is "
                       "enumerated against R702-R723 on the real source; grouping of every expression with up to 2 (quick) / 3 (thorough) operators "
-                      "compared with the intended tree and an independent reference parser (bounded); one class of valid inputs is rejected (known finding)",
+                      "compared with the intended tree and an independent reference parser (bounded); BinaryOpBase.match and UnaryOpBase.match "
+                      "are proved to split at the occurrence their direction flag selects, to hand each side to its rule and to decline only for the stated reasons; "
+                      "one class of valid inputs is rejected (known finding)",
                 trusted="reference precedence parser spec/reference.py written from the standard; bounded expression depth",
-                explanation="[E] F7 table; [B] Expr vs reference; BinaryOpBase.match / Pattern.rsplit not yet under contract",
+                explanation="[P] U11a BinaryOpBase.match (pattern and string operators), UnaryOpBase.match; [E] F7 table; [B] Expr vs reference; Pattern.rsplit/lsplit trusted (regex split)",
                 witnesses=["c03_defined_binary_op_then_dotted_operator"]),
     "C04": dict(level="other", enum=["bounded_layout.py --only C04,C12"],
                 claim="label and construct-name extraction and the quote-aware tokenisers are proved; the free-form continuation logic is decided by a "
                       "bounded layout-independence check (every continuation point, leading-& choice, comment/blank insertion, ';' joins over 8 statements)",
                 trusted=TRUSTED + "; bounded layout space",
-                explanation="[P] R3, R4, S1, S2; [B] layouts (bounded_layout.py); get_source_item free branch and handle_inline_comment not yet proved",
+                explanation="[P] R3, R4, S1, S2, handle_inline_comment; [B] layouts (bounded_layout.py); get_source_item free branch not under contract",
                 witnesses=["c04_ampersand_inside_continued_literal"]),
     "C05": dict(level="other", enum=["bounded_layout.py --only C05"],
                 claim="the fixed-form column predicates (_is_fix_cont, _is_fix_comment) and line normalisation are proved; detection and the fixed-form "
@@ -124,16 +132,17 @@ PROPS = {
                 claim="round trip decided on a catalogue of programs (print, re-parse, same tree, same text; both standards, three comment modes); "
                       "label / construct-name re-extraction proved; the generic match/tostr lemmas are not yet under contract",
                 trusted=TRUSTED + "; bounded catalogue",
-                explanation="[B] catalogue round trip; [P] R3, R4 (what StmtBase.tofortran prints is re-extracted)"),
+                explanation="[B] round trip of the catalogue and of one program per corpus statement; [P] R3, R4, StmtBase/BlockBase.tofortran"),
     "C07": dict(level="other", enum=["bounded_trees.py --only C07"],
                 claim="message construction proved (FortranSyntaxError names linecount and quotes source_lines[linecount-1]; line bookkeeping invariant kept "
                       "by the line buffers); the location for every replaced statement of four catalogue programs checked on the real parser",
                 trusted=TRUSTED + "; bounded catalogue",
-                explanation="[P] U1, G2 (R7); [B] garbage at every statement"),
+                explanation="[P] U1, G2 (R7, every physical line drawn is cached and counted); [B] garbage at every statement, with control characters and continued statements before it"),
     "C13": dict(level="other", enum=["bounded_trees.py --only C13", ("enum_frame.py", ["frame.inventory"])],
-                claim="put_item proved to reach the innermost include reader; include resolution compared with inlined text for every split of a small "
+                claim="put_item proved to reach the innermost include reader; FortranReaderBase.next proved to open the first match of the include path with the "
+                      "parent's options and to hand an unresolved include on unchanged; include resolution compared with inlined text for every split of a small "
                       "program into main text and include file (file and string readers, two include directories, first match wins); unresolved include kept",
                 trusted=TRUSTED + "; bounded catalogue; file system behaviour",
-                explanation="[P] R9a; [B] include scenarios in temporary directories",
+                explanation="[P] R9a, R10 (next); [B] include scenarios in temporary directories (splits, histories, reader options)",
                 witnesses=["c13_include_redetects_format"]),
 }
